@@ -27,7 +27,8 @@ fn ctx_probe(interp: &mut Interp, ctx: ContextID, _: &[Value]) -> MoltResult {
     Ok(Value::from(100 + d.id))
 }
 
-/// all concrete operations: ("add" name tag) ("addctx" name ctx) ("proc" name) ("badproc" name: rejected definition)
+/// all concrete operations: ("add" name tag) ("addctx" name ctx) ("proc" name) ("procd" / "procn" name: one body and
+/// parameter name, with and without a default) ("badproc" name: rejected definition)
 /// ("selfdef" name: a procedure redefining itself, called twice in a row) ("rename" a b) ("remove" name)
 pub fn all_ops() -> Vec<Term> {
     let mut v = Vec::new();
@@ -37,6 +38,8 @@ pub fn all_ops() -> Vec<Term> {
             v.push(tag("addctx", vec![ts(n), ti(c)]));
         }
         v.push(tag("proc", vec![ts(n)]));
+        v.push(tag("procd", vec![ts(n)]));
+        v.push(tag("procn", vec![ts(n)]));
         v.push(tag("badproc", vec![ts(n)]));
         v.push(tag("selfdef", vec![ts(n)]));
         v.push(tag("remove", vec![ts(n)]));
@@ -139,6 +142,12 @@ pub fn run(case: &Term) -> Term {
             }
             "proc" => {
                 let _ = interp.eval(&list_cmd(&["proc", o.nth(1).as_str(), "", "return P"]));
+            }
+            "procd" => {
+                let _ = interp.eval(&list_cmd(&["proc", o.nth(1).as_str(), "{x D}", "return $x"]));
+            }
+            "procn" => {
+                let _ = interp.eval(&list_cmd(&["proc", o.nth(1).as_str(), "x", "return $x"]));
             }
             "badproc" => {
                 let _ = interp.eval(&list_cmd(&["proc", o.nth(1).as_str(), "{}", "return P"]));
